@@ -86,33 +86,41 @@ def specs() -> List[Dict[str, Any]]:
         ball = (n == 2 and k <= 3) or (n == 3 and k <= 2)
         S.append(spec(f"rubiks_cube.ScramblingGenerator({n},{k})", f"G.rubiks_cube.ScramblingGenerator({n},{k})",
                       "rubiks", "rubiks_cube.ScramblingGenerator", dict(n=n, scrambles=k, ball=ball),
-                      small=ball, singleton="zero scrambles: always the solved cube" if k == 0 else ""))
+                      small=ball, singleton="zero scrambles: always the solved cube" if k == 0 else "",
+                      quick=(n, k) in [(2, 0), (2, 3), (2, 20), (3, 2), (3, 100), (4, 10)]))
 
     # ---- connector -----------------------------------------------------------------------------
     for n, a in [(2, 2), (3, 1), (3, 2), (3, 4), (4, 2), (5, 3), (6, 5), (10, 10)]:
         S.append(spec(f"connector.UniformRandomGenerator({n},{a})", f"G.connector.UniformRandomGenerator({n},{a})",
                       "connector_uniform", "connector.UniformRandomGenerator", dict(grid=n, agents=a),
                       small=n <= 3))
-    regress = {(10, 10): [589], (5, 4): [189, 401, 465]}
+    # regression inputs of defect #9 (both tiers): 589 / 189, 401, 465 leave the target at (-1, n-1); at
+    # (5,4) key 61 the walk continues from the off-grid cell instead (same cause, other symptom)
+    regress = {(10, 10): [589], (5, 4): [61, 189, 401, 465]}
     for n, a in [(3, 1), (3, 2), (4, 2), (4, 3), (5, 3), (5, 4), (6, 5), (7, 3), (10, 10)]:
-        for mode, val, tag in (("call", "connector_walk", ""), ("connector_board", "connector_board", ".generate_board")):
-            S.append(spec(f"connector.RandomWalkGenerator({n},{a}){tag}", f"G.connector.RandomWalkGenerator({n},{a})",
-                          val, "connector.RandomWalkGenerator", dict(grid=n, agents=a), mode=mode,
-                          small=n <= 3 and not tag, extra_keys=regress.get((n, a), [])))
+        S.append(spec(f"connector.RandomWalkGenerator({n},{a})", f"G.connector.RandomWalkGenerator({n},{a})",
+                      "connector_walk", "connector.RandomWalkGenerator", dict(grid=n, agents=a), mode="connector_pair",
+                      small=n <= 3, extra_keys=regress.get((n, a), []), quick=(n, a) in [(3, 2), (4, 3), (5, 4), (10, 10)]))
 
     # ---- mmst ----------------------------------------------------------------------------------
     for nn, ne, d, a, m, t in [(36, 72, 5, 3, 4, 70), (12, 18, 4, 2, 3, 6), (10, 12, 3, 2, 2, 10), (20, 30, 4, 4, 2, 20),
-                               (17, 24, 4, 3, 2, 12), (6, 6, 3, 1, 3, 8)]:
+                               (17, 24, 4, 3, 2, 12), (8, 9, 3, 2, 2, 8), (6, 6, 3, 1, 3, 8)]:
         S.append(spec(f"mmst.SplitRandomGenerator({nn},{ne},{d},{a},{m})",
                       f"G.mmst.SplitRandomGenerator({nn},{ne},{d},{a},{m},{t})", "mmst", "mmst.SplitRandomGenerator",
-                      dict(nodes=nn, edges=ne, max_degree=d, agents=a, per_agent=m)))
+                      dict(nodes=nn, edges=ne, max_degree=d, agents=a, per_agent=m), quick=nn in (36, 12, 8)))
 
     # ---- flat pack -----------------------------------------------------------------------------
-    for r, c in [(1, 1), (1, 3), (2, 2), (3, 2), (5, 5)]:
+    for r, c in [(1, 1), (1, 3), (2, 2), (3, 2)]:
         S.append(spec(f"flat_pack.RandomFlatPackGenerator({r},{c})", f"G.flat_pack.RandomFlatPackGenerator({r},{c})",
                       "flat_pack", "flat_pack.RandomFlatPackGenerator", dict(row_blocks=r, col_blocks=c),
-                      small=r * c <= 4, singleton="one block filling the 3x3 grid" if r * c == 1 else "",
-                      k_thorough=512 if r * c >= 25 else None))
+                      small=r * c <= 4, singleton="one block filling the 3x3 grid" if r * c == 1 else ""))
+    # default size: the exact-cover search is slow in Python -> 32 keys (quick), 4 x 128 keys (thorough)
+    S.append(spec("flat_pack.RandomFlatPackGenerator(5,5)", "G.flat_pack.RandomFlatPackGenerator(5,5)", "flat_pack",
+                  "flat_pack.RandomFlatPackGenerator", dict(row_blocks=5, col_blocks=5), k_quick=32, thorough=False))
+    for lo in (0, 128, 256, 384):
+        S.append(spec(f"flat_pack.RandomFlatPackGenerator(5,5)[keys {lo}..{lo + 127}]",
+                      "G.flat_pack.RandomFlatPackGenerator(5,5)", "flat_pack", "flat_pack.RandomFlatPackGenerator",
+                      dict(row_blocks=5, col_blocks=5), k_thorough=128, key_lo=lo, quick=False))
     for cls in ("ToyFlatPackGeneratorWithRotation", "ToyFlatPackGeneratorNoRotation"):
         S.append(spec(f"flat_pack.{cls}()", f"G.flat_pack.{cls}()", "flat_pack", f"flat_pack.{cls}",
                       dict(row_blocks=2, col_blocks=2), random=False, k_quick=8, k_thorough=32))
@@ -124,7 +132,8 @@ def specs() -> List[Dict[str, Any]]:
         extra = "" if dims == tw else f", container_dims=({dims[0]},{dims[1]},{dims[2]})"
         S.append(spec(f"bin_pack.RandomGenerator({mi},{me},split={sp_}{',dims=' + str(tuple(dims)) if dims != tw else ''})",
                       f"G.bin_pack.RandomGenerator({mi},{me},split_num_same_items={sp_}{extra})", "bin_pack",
-                      "bin_pack.RandomGenerator", dict(max_items=mi, max_ems=me, dims=dims), mode="binpack_pair"))
+                      "bin_pack.RandomGenerator", dict(max_items=mi, max_ems=me, dims=dims), mode="binpack_pair",
+                      quick=mi in (20, 5, 12)))
     S.append(spec("bin_pack.ToyGenerator()", "G.bin_pack.ToyGenerator()", "bin_pack", "bin_pack.ToyGenerator",
                   dict(max_items=20, max_ems=60, dims=tw), mode="binpack_pair", random=False, k_quick=8, k_thorough=32))
     S.append(spec("bin_pack.CSVGenerator[hand-written file]", "G.bin_pack.CSVGenerator(CSV_PATH, 12)", "bin_pack_csv",
@@ -157,7 +166,7 @@ def specs() -> List[Dict[str, Any]]:
     for n, v in [(6, 2), (6, 3), (20, 2), (20, 3), (50, 2), (50, 5), (100, 4), (150, 6)]:
         S.append(spec(f"multi_cvrp.UniformRandomGenerator({n},{v})", f"G.multi_cvrp.UniformRandomGenerator({n},{v})",
                       "multi_cvrp", "multi_cvrp.UniformRandomGenerator", dict(customers=n, vehicles=v),
-                      quick=n <= 50))
+                      quick=(n, v) in [(6, 2), (6, 3), (20, 2), (50, 5)]))
 
     # ---- graph coloring ------------------------------------------------------------------------
     for n, pr in [(1, 0.5), (2, 0.5), (3, 0.5), (4, 0.5), (5, 0.6), (7, 0.05), (7, 0.95), (6, 0.5), (20, 0.8)]:
@@ -188,7 +197,8 @@ def specs() -> List[Dict[str, Any]]:
                                     (10, 5, 3, 10, 2, False), (9, 4, 4, 9, 5, True)]:
         S.append(spec(f"lbf.RandomGenerator({g},{a},{f},fov={fov},max_agent_level={lvl},force_coop={coop})",
                       f"G.lbf.RandomGenerator({g},{a},{f},{fov},max_agent_level={lvl},force_coop={coop})", "lbf",
-                      "lbf.RandomGenerator", dict(grid=g, agents=a, food=f, max_agent_level=lvl, force_coop=coop)))
+                      "lbf.RandomGenerator", dict(grid=g, agents=a, food=f, max_agent_level=lvl, force_coop=coop),
+                      quick=(g, a) in [(5, 2), (5, 1), (6, 3), (8, 2), (7, 4)]))
 
     # ---- robot warehouse -----------------------------------------------------------------------
     for sr, sc, ch, a, sn, q in [(1, 3, 1, 2, 1, 2), (1, 3, 2, 3, 2, 1), (2, 3, 8, 4, 1, 8), (1, 5, 2, 2, 1, 4),
@@ -196,7 +206,8 @@ def specs() -> List[Dict[str, Any]]:
         S.append(spec(f"robot_warehouse.RandomGenerator({sr},{sc},{ch},{a},{sn},{q})",
                       f"G.robot_warehouse.RandomGenerator({sr},{sc},{ch},{a},{sn},{q})", "robot_warehouse",
                       "robot_warehouse.RandomGenerator",
-                      dict(shelf_rows=sr, shelf_columns=sc, column_height=ch, agents=a, queue=q)))
+                      dict(shelf_rows=sr, shelf_columns=sc, column_height=ch, agents=a, queue=q),
+                      quick=(sr, sc, ch, a) in [(1, 3, 1, 2), (1, 3, 2, 3), (2, 3, 8, 4), (1, 5, 2, 2)]))
 
     # ---- environments with a random reset and no generator class ---------------------------------
     for r, c in [(2, 2), (3, 3), (2, 5), (5, 2), (4, 4), (12, 12)]:
@@ -324,7 +335,7 @@ _HEAVY = ("mmst", "flat_pack.RandomFlatPackGenerator(5,5)", "bin_pack", "connect
 
 def main(tier: str, seed: int) -> int:
     rep = Reporter(PID, tier, seed)
-    sps = [s for s in specs() if tier == "thorough" or s["quick"]]
+    sps = [s for s in specs() if (s["thorough"] if tier == "thorough" else s["quick"])]
     only = os.environ.get("VERIF_C10_ONLY")  # debugging aid: substring filter on model names
     if only:
         sps = [s for s in sps if any(o in s["model"] for o in only.split("|"))]
@@ -344,8 +355,9 @@ def main(tier: str, seed: int) -> int:
         "Sokoban DeepMindGenerator / HuggingFaceDeepMindGenerator need a download and are not covered",
         "cube reachability beyond 3x3 is checked by necessary conditions only (sticker counts, corner cubies and "
         "twist, fixed central facelets); 2x2 and 3x3 use the complete cubie criterion",
-        "FlatPack exact-cover search is capped at 400k nodes per instance; capped searches are counted "
-        "(flatpack_exact_cover_capped) and never reported as tilings",
+        "FlatPack: the exact-cover search (Algorithm X) is complete for <= 6 blocks; for 25 blocks it is capped at 20k (quick) / "
+        "100k (thorough) nodes per instance and undecided instances are counted (flatpack_exact_cover_undecided), never reported "
+        "either way",
     ]
     rep.coverage["exhaustive"] = not only
     rep.coverage["key_window"] = K
